@@ -26,6 +26,7 @@ def run(ctx):
                      ('v2 digest', pc.mc_cfg('pit-A-dig-v2', 'v2', 3, 2, 'dig', 'v2two')),
                      ('v2 small + liveness', pc.mc_cfg('pit-A-live-v2', 'v2', 2, 3, 'small', 'v2two', live=True))]
         pc.stage_a(ctx, cfgs)
+        impl_refinement(ctx)
     if 'B' in ctx.stages:
         cfgp = pc.mc_cfg('pit-B', 'v2', 2, 2, 'small', 'v2two', invs=[], props=[])
         for front, vmap in (('v2', None), ('legacy', {'PASS': 'T', 'FAIL': 'F'})):
@@ -37,6 +38,42 @@ def run(ctx):
     if 'C' in ctx.stages:
         for front in ('v2', 'legacy'):
             pc.stage_c(ctx, front, ctx.pick(300, 5000), 40, devs=DEVS[front])
+
+
+IMPL_INVS = ['PendingReachable', 'NoResidueImpl', 'OneNode', 'NoEmptyNode', 'NoInternalError']
+
+
+def impl_cfg(name, ent, maxt, T, V, bug):
+    import os
+    p = os.path.join(tlc.BUILD, name + '.cfg')
+    tlc.write_cfg(p, spec='ISpec', constants={'MaxEntries': ent, 'MaxT': maxt, 'Templates': '<- T_' + T, 'DataSet': '<- D_' + T,
+                                              'Verdicts': '<- V_' + V, 'Reasons': '<- R_one', 'MaxNodes': ent, 'Bug': '<- ' + bug},
+                  invariants=IMPL_INVS, properties=['Refines'])
+    return p
+
+
+def impl_refinement(ctx):
+    """NdnPitImpl (trie of node objects, node references held by waiters, validator tasks with done-guard) refines
+    NdnPit and keeps its structural invariants; the two defects found in the original code, re-enabled as switches,
+    must give TLC counterexamples (otherwise the design-level check would be blind to them)."""
+    cfgs = [('impl small 2 entries', impl_cfg('impl-small', 2, 2, 'small', 'two', 'NoBug'))]
+    if not ctx.quick:
+        cfgs += [('impl timing 3 entries', impl_cfg('impl-timing', 3, 3, 'timing', 'two', 'NoBug')),
+                 ('impl digest 3 entries all verdicts', impl_cfg('impl-dig', 3, 2, 'dig', 'all', 'NoBug'))]
+    for label, cfgp in cfgs:
+        r = tlc.run('NdnPitImplMC', cfgp, coverage=True, workers=ctx.pick(8, 16), timeout=3000)
+        ctx.add_tlc('NdnPitImpl refines NdnPit: ' + label, r)
+        if r.violated:
+            ctx.violation('C03/spec/NdnPitImpl/%s' % r.violated, 'TLC: %s violated in NdnPitImpl (%s)' % (r.violated, label),
+                          {'trace': r.errtrace})
+        for a in ('IExpress', 'IRecvData', 'IValFinish', 'IFire', 'ICancel', 'IRecvNack', 'IShutdown'):
+            if r.coverage.get(a, (0, 0))[1] == 0:
+                raise tlc.MachineryError('vacuous: NdnPitImpl action %s never taken' % a)
+    for bug, expect in (('BugStale', 'PendingReachable'), ('BugCancel', 'NoResidueImpl')):
+        r = tlc.run('NdnPitImplMC', impl_cfg('impl-' + bug, 2, 2, 'small', 'two', bug), workers=4, heavy=False)
+        if not r.violated:
+            raise tlc.MachineryError('NdnPitImpl with %s should violate %s but TLC found nothing' % (bug, expect))
+        ctx.note('NdnPitImpl with %s: TLC counterexample for %s (expected)' % (bug, r.violated))
 
 
 def replay(ctx, path):
